@@ -353,4 +353,136 @@ Proof.
   - rewrite <- Hmm'. apply (wf_mem size _ _ (proj1 WFl)).
 Qed.
 
+(** retention bound for every history (projection of [history_inv]) *)
+Theorem retention_bound (ms mm : N) (ops : list (op T)) :
+  1024 <= ms -> 1 <= mm ->
+  2 * lenN (appended ops) < U64 ->
+  Forall (op_ok size ms (lenN (appended ops))) ops ->
+  exists st az,
+    (do s0 <- init ms mm; run size s0 ops) = Ok (st, az) /\
+    1 <= lenN (segs (lg st)) /\ lenN (segs (lg st)) <= mm /\
+    tail (lg st) + 1 = head (lg st) + lenN (segs (lg st)).
+Proof.
+  intros Hs Hm Hov Hok.
+  destruct (history_inv ms mm ops Hs Hm Hov Hok) as (st & az & Hr & _ & [W _] & _ & Hle & _).
+  exists st, az. split; [exact Hr|]. pose proof (wf_count size _ _ W). pose proof (wf_ne size _ _ W) as Hne.
+  split; [|split; [exact Hle | lia]].
+  destruct (segs (lg st)); [congruence | rewrite lenN_cons; lia].
+Qed.
+
+(** a cursor issued before an append is still an issued cursor after it *)
+Theorem issued_preserved (l l' : log T) all x r c :
+  WF size l all -> size x + max_seg l <= U64 -> lenN all + 1 < U64 ->
+  append size l x = Ok (l', r) -> Issued l c -> Issued l' c.
+Proof.
+  intros WFl Hsz Hov Happ Hi.
+  destruct (append_spec size l all x WFl Hsz Hov) as (l2 & Happ2 & _ & Hsh & _).
+  rewrite Happ2 in Happ. injection Happ as <- _. eapply issued_append; eassumption.
+Qed.
+
+(** resuming across an append: the continuation of a read, used after a later append, yields
+    the entries from where the first read stopped (or from the new base if that position was
+    evicted by the append, which is then at or after it), including the appended entry *)
+Theorem readv_resume_append (l l' : log T) all c n1 n2 pos1 out1 x r :
+  WF size l all -> Issued l c -> 2 * (lenN all + 1) < U64 -> snd c + n1 < U64 ->
+  size x + max_seg l <= U64 ->
+  readv l c n1 = Ok (pos1, out1) -> append size l x = Ok (l', r) ->
+  snd (pos_end pos1) + n2 < U64 ->
+  exists pos2 out2,
+    readv l' (pos_end pos1) n2 = Ok (pos2, out2) /\
+    let q := if stale l' (pos_end pos1) then base_of l' else pos_of l c + lenN out1 in
+    pos_of l c + lenN out1 <= q /\
+    map fst out2 = firstn (N.to_nat n2) (skipn (N.to_nat q) (all ++ [x])) /\
+    (is_done pos2 = true <-> q + lenN out2 = lenN all + 1).
+Proof.
+  intros WFl Hi Hov Hn1 Hsz R1 Happ Hn2. pose proof WFl as [W _].
+  destruct (readv_exact l all c n1 WFl Hi) as (pos & out & Hr & F); [lia | lia |].
+  rewrite Hr in R1. injection R1 as -> ->. cbn zeta in F.
+  destruct F as (_ & _ & _ & _ & _ & _ & Hiend & Hst & Hsnd & _ & _).
+  destruct (append_spec size l all x WFl Hsz) as (l2 & Happ2 & W' & Hsh & _); [lia|].
+  rewrite Happ2 in Happ. injection Happ as <- _.
+  pose proof (issued_append size l l2 x _ Hsh Hiend) as HI'.
+  destruct (readv_exact l2 (all ++ [x]) (pos_end pos1) n2 W' HI') as (pos2 & out2 & Hr2 & F2);
+    [rewrite lenN_app, lenN_cons, lenN_nil; lia | lia |].
+  cbn zeta in F2. destruct F2 as (_ & _ & Hmap & _ & _ & _ & _ & _ & _ & _ & Hdone).
+  exists pos2, out2. split; [exact Hr2|]. cbn zeta.
+  unfold pos_of in Hmap, Hdone. rewrite Hsnd in Hmap, Hdone.
+  rewrite lenN_app, lenN_cons, lenN_nil in Hdone. fold (pos_of l c) in *.
+  replace (lenN all + (0 + 1)) with (lenN all + 1) in Hdone by lia.
+  split; [|split; assumption].
+  destruct (stale l2 (pos_end pos1)) eqn:Est; [|lia].
+  unfold stale in Hst, Est. apply N.ltb_lt in Est. apply N.ltb_ge in Hst.
+  destruct Hsh as [i a _ _ Hh _ | f _ _ Hh _ | s0 rest f Es Es' Hf Hh _]; [lia | lia |].
+  destruct Hiend as [? | (_ & _ & s & Hn & _ & Hhi)]; [lia|].
+  replace (N.to_nat (fst (pos_end pos1) - head l)) with O in Hn by lia.
+  rewrite Es in Hn. cbn [nth_error] in Hn. injection Hn as <-.
+  destruct W' as [W' _].
+  pose proof (wfs_end size l all W) as He. pose proof (wfs_end size l2 _ W') as He'.
+  rewrite Es, lenD_cons in He. rewrite Es', lenD_app, lenD_cons, lenD_nil in He'.
+  unfold seg_len at 1 in He'. cbn [pushed s_data] in He'. rewrite Hf in He'.
+  rewrite lenN_app, lenN_cons, !lenN_nil in He'.
+  assert (Hb : base_of l = s_abs s0) by (unfold base_of; now rewrite Es).
+  assert (HL : lenN (all ++ [x]) = lenN all + 1) by (unfold lenN; rewrite app_length; cbn [length]; lia).
+  rewrite HL in He'. fold (pos_of l c) in Hsnd. lia.
+Qed.
+
+Theorem next_offset_issued (l : log T) all :
+  WF size l all -> lenN all < U64 ->
+  next_offset l = Ok (tail l, lenN all) /\ Issued l (tail l, lenN all) /\ stale l (tail l, lenN all) = false.
+Proof.
+  intros [W _] Hov. destruct (next_offset_spec size l all W Hov) as [H1 H2].
+  split; [exact H1|]. split; [exact H2|]. unfold stale. cbn [fst].
+  pose proof (wf_count size l all W). pose proof (wf_ne size l all W) as Hne.
+  destruct (N.ltb_spec (tail l) (head l)); [|reflexivity].
+  destruct (segs l); [congruence | rewrite lenN_cons in *; lia].
+Qed.
+
 End Proofs.
+
+(* ---------- non-vacuity: the hypotheses hold of a reachable log that has evicted a segment ---------- *)
+
+Definition ex_ops : list (op item) :=
+  [OpA (1, 600); OpA (2, 600); OpA (3, 1); OpA (4, 2000); OpA (5, 1)].
+
+(** after [ex_ops] on (1024, 2): segment 0 = entries 0,1 was evicted; segment 1 = entries 2,3;
+    segment 2 (active) = entry 4.  The theorems' hypotheses hold of this log, for a stale
+    cursor (0,1), a mid-segment cursor (1,3) and the tail cursor (2,5); the stale read crosses
+    a segment boundary and resumes at the oldest retained entry. *)
+Example ex_reachable :
+  exists st az,
+    (do s0 <- init 1024 2; run item_size s0 ex_ops) = Ok (st, az) /\
+    WF item_size (lg st) (appended ex_ops) /\
+    head (lg st) = 1 /\ tail (lg st) = 2 /\ base_of (lg st) = 2 /\
+    2 * lenN (appended ex_ops) < U64 /\
+    Issued (lg st) (0, 1) /\ stale (lg st) (0, 1) = true /\
+    Issued (lg st) (1, 3) /\ Issued (lg st) (2, 5) /\
+    readv (lg st) (0, 1) 100 =
+      Ok (Done (1, 2) (2, 5), [((3, 1), (1, 2)); ((4, 2000), (1, 3)); ((5, 1), (2, 4))]) /\
+    readv (lg st) (1, 3) 1 = Ok (Next (1, 3) (2, 4), [((4, 2000), (1, 3))]) /\
+    (forall x : item, snd x < 1000 -> item_size x + max_seg (lg st) <= U64).
+Proof.
+  assert (Hok : Forall (op_ok item_size 1024 (lenN (appended ex_ops))) ex_ops).
+  { unfold ex_ops. repeat (apply Forall_cons; [cbn; unfold U64; lia|]). apply Forall_nil. }
+  assert (Hov : 2 * lenN (appended ex_ops) < U64) by (vm_compute; reflexivity).
+  destruct (history_inv item_size 1024 2 ex_ops) as (st & az & Hr & _ & W & _); try lia; try assumption.
+  exists st, az. split; [exact Hr|]. split; [exact W|].
+  vm_compute in Hr. injection Hr as <- <-. cbn [lg head tail].
+  split; [reflexivity|]. split; [reflexivity|]. split; [reflexivity|]. split; [exact Hov|].
+  split; [left; cbn; lia|]. split; [reflexivity|].
+  split.
+  { right. cbn [fst snd head tail]. split; [lia|]. split; [lia|]. eexists. split; [reflexivity|]. cbn. lia. }
+  split.
+  { right. cbn [fst snd head tail]. split; [lia|]. split; [lia|]. eexists. split; [reflexivity|]. cbn. lia. }
+  split; [vm_compute; reflexivity|]. split; [vm_compute; reflexivity|].
+  intros x Hx. unfold item_size. cbn [max_seg]. unfold U64. lia.
+Qed.
+
+(** the configuration precondition is needed: [new] panics below 1 KiB / without a segment *)
+Example ex_new_panics : is_panic (@new item 1023 1) = true /\ is_panic (@new item 1024 0) = true.
+Proof. split; reflexivity. Qed.
+
+(** the [off + n < 2^64] hypothesis of [readv_total] is needed: [idx + len] overflows *)
+Example ex_len_overflow :
+  is_panic (do s0 <- init 1024 1;
+            run item_size s0 [OpA (1, 1); OpA (2, 1); OpR (0, 1) (U64 - 1)]) = true.
+Proof. vm_compute. reflexivity. Qed.
